@@ -105,6 +105,9 @@ class ValidInterp(Interp):
         self.obs = []     # (call node, arg idx, arg path, may_be_cif1, validated)
         self.text_obs = []
         self.track_also(["context->version"])
+        # what a branch established about the statistic stays known up to the write_text call (the refusal may be
+        # decided through a local that combines it with other reasons for prefixing)
+        self.track_also([q for q in list(self.tracked) if q.endswith("contains_text_delim")])
 
     def initial_ts(self):
         return frozenset()
@@ -347,3 +350,6 @@ def run(prog, chk):
                              "a `;` at the start of the continuation line is not excluded" % (got, got, idx))
     if n5 < 3:
         raise Broken("only %d semicolon-guarded fold points found in fold_line" % n5)
+
+    from . import c02
+    c02.text_field_rules(prog, chk, "R6", "R7")
